@@ -845,6 +845,13 @@ class Interp:
                 obj.f[name] = v
                 return
             raise self.rt_error('PropertyError', 'Undefined property %s on class %s.' % (name, obj.cls.name))
+        if isinstance(obj, LyModule):
+            # a module object is an instance whose fields are the exports it was built from: a write changes this
+            # import's object only, never the module's variable nor the objects other imports received
+            if name in obj.exports:
+                obj.exports[name] = v
+                return
+            raise self.rt_error('PropertyError', 'Undefined property %s on module' % name)
         raise self.rt_error('RuntimeError', 'Only instances have settable fields.')
 
     def builtin_method(self, obj, name):
